@@ -105,7 +105,7 @@ Proof.
   rewrite E1. cbn [gbind]. clear E1.
   set (N0M := map (fun j => if in_half_open K (kn U (sp + j)) (kn U (S (sp + j))) u then o1 K else 0) (seq O (S p)) ++ [0]).
   assert (R1 : Rel p sp N1 N0M).
-  { unfold Rel, N0M. rewrite app_length, map_length, seq_length. simpl. repeat split; auto; try lia.
+  { unfold Rel, N0M. rewrite app_length, map_length, seq_length. cbn [length]. repeat split; auto; try lia.
     intros i Hi. rewrite Hind by lia. rewrite app_nth1 by (rewrite map_length, seq_length; lia).
     rewrite nth_map_seq by lia. reflexivity. }
   clearbody N0M. clear HN1 Hind.
@@ -125,8 +125,7 @@ Proof.
                             else odiv K (omul K (osub K u (kn U sp)) (nth O NM 0)) (osub K (kn U (sp + k)) (kn U sp)))) end.
     { destruct (oeqb K (nth O NM 0) 0); cbn [negb]; auto.
       rewrite !(znth_Z U _ 0) by lia. cbn [gbind].
-      rewrite (znth_Z NG _ 0) by lia. cbn [gbind]. change (Z.to_nat 0) with O. rewrite (Hnth O) by lia.
-      rewrite Nat2Z.id. replace (Z.to_nat (Z.of_nat sp + Z.of_nat k)) with (sp + k) by lia. reflexivity. }
+      rewrite ?Nat2Z.id. replace (Z.to_nat (Z.of_nat sp + Z.of_nat k)) with (sp + k) by lia. reflexivity. }
     rewrite (gbind_eq _ _ _ EA). clear EA.
     set (saved0 := if oeqb K (nth O NM 0) 0 then 0 else _).
     replace (Z.of_nat p - Z.of_nat k + 1)%Z with (Z.of_nat (S (p - k))) by lia.
@@ -149,9 +148,7 @@ Proof.
       destruct (oeqb K (nth (S j) NM' 0) 0).
       - rewrite zset_Z by lia. cbn [gbind]. rewrite Nat2Z.id.
         eexists. split; [reflexivity|]. simpl. split; auto. apply Rel_upd; auto. lia.
-      - rewrite (znth_Z NG' _ 0) by lia. cbn [gbind].
-        replace (Z.to_nat (Z.of_nat j + 1)) with (S j) by lia. rewrite (Hnth' (S j)) by lia.
-        rewrite zset_Z by lia. cbn [gbind]. rewrite Nat2Z.id.
+      - cbn [gbind]. rewrite zset_Z by lia. cbn [gbind]. rewrite Nat2Z.id.
         eexists. split; [reflexivity|]. simpl. split; auto. apply Rel_upd; auto. lia. }
     { simpl. auto. }
     rewrite E3. cbn [gbind]. eexists. split; [reflexivity|]. exact R3. }
